@@ -16,6 +16,8 @@ def config(name):
     return [(A.ANY, A.REPLACE)]
   if name == 'call_args_only':
     return [(P(ast.Call, 'args', A.ANY), A.REPLACE), (P(ast.Call, 'keywords', A.ANY), A.REPLACE), (A.ANY, A.LEAVE)]
+  if name == 'call_args_that_are_calls':
+    return [(P(ast.Call, 'args', ast.Call), A.REPLACE)]
   if name == 'binop_only':
     return [(P(A.ANY, A.ANY, (ast.Constant, ast.Name)), A.LEAVE), (P(ast.BinOp, A.ANY, A.ANY), A.REPLACE),
             (P(ast.UnaryOp, A.ANY, A.ANY), A.REPLACE), (A.ANY, A.LEAVE)]
@@ -27,7 +29,7 @@ def config(name):
   raise KeyError(name)
 
 
-CONFIGS = ['default', 'replace_all', 'call_args_only', 'binop_only', 'calls_everywhere', 'no_subscript_no_attr']
+CONFIGS = ['default', 'replace_all', 'call_args_only', 'call_args_that_are_calls', 'binop_only', 'calls_everywhere', 'no_subscript_no_attr']
 
 
 def transform_source(src_fn, cfg):
